@@ -19,13 +19,41 @@ CHECK_DEADLOCK FALSE
 SINV = "INVARIANTS Conservation HonestPayout HonestNotRobbed"
 
 
+def known_replays(prop, scratch, binary, dr):
+    """Every listed finding of the property is replayed from its committed vector, whatever the seed / tier samples: it is
+    reported (KNOWN-FINDING) exactly as long as the real code still fails on it."""
+    import json
+    for i, k in enumerate(f for f in vlib.load_known() if f["property"] == prop and f.get("replay")):
+        path = os.path.join(vlib.VERIF, k["replay"])
+        rp = json.load(open(path))
+        c = rp["cfg"]
+        if rp["driver"] == "settle":
+            cfg = CFG % dict(a0=c["A0"], b0=c["B0"], mv=3, cd=c["CD"], fs=c["FShift"], adv="TRUE" if c["Adversary"] else "FALSE", inv="")
+            mod, test = "Settle", "TestSettle"
+            env = dict(VERIF_A0=c["A0"], VERIF_B0=c["B0"], VERIF_CD=c["CD"], VERIF_FSHIFT=c["FShift"], VERIF_ADVERSARY="1" if c["Adversary"] else "0")
+        else:
+            cfg = SCFG % dict(p0=c["P0"], mp=3, ms=1, cd=c["CD"], adv="TRUE" if c["Adversary"] else "FALSE", hon=c["Hon"],
+                              bal="TRUE" if c.get("Ballast") else "FALSE", inv="")
+            mod, test = "SubSettle", "TestSubSettle"
+            env = dict(VERIF_P0=c["P0"], VERIF_CD=c["CD"], VERIF_ADVERSARY="1" if c["Adversary"] else "0", VERIF_HON=c["Hon"],
+                       VERIF_BALLAST="1" if c.get("Ballast") else "0")
+        r = vlib.tlc(scratch, mod, cfg, name="Known_%s%d" % (prop, i), workers=1, extra=["-dump", "dot,actionlabels", "graph.dot"], timeout=3000)
+        if not r["ok"]:
+            raise vlib.Inconclusive("TLC failed on %s.tla (known-finding replay)" % mod)
+        dot = os.path.join(r["dir"], "graph.dot")
+        d = vlib.run_driver(binary, test, dict(env, VERIF_DOT=dot, VERIF_REPLAY_STEPS=path), scratch, "known%d" % i, timeout=1200)
+        os.remove(dot)
+        d["counts"] = dict(known_finding_replays=1)
+        dr.append(d)
+
+
 def sub_runs(prop, tier, seed, scratch, binary, tl, dr, design_cex):
     """SubSettle.tla: the same two properties for a ledger channel with a sub-channel."""
     adv = prop == "C04"
     if tier == "quick":
         base, stride = dict(p0=2, mp=3, ms=1, cd=1), 3
     else:
-        base, stride = (dict(p0=2, mp=4, ms=2, cd=1) if adv else dict(p0=3, mp=4, ms=2, cd=2)), 1
+        base, stride = dict(p0=2, mp=4, ms=2, cd=1), 1
     shards = vlib.NCPU
     # variants: (honest party, ballast sub-channel). Adversary mode: either party honest, the second one with the ballast
     # sub-channel (S is then the second locked sub-allocation); honest mode: with and without ballast.
@@ -55,7 +83,7 @@ def sub_runs(prop, tier, seed, scratch, binary, tl, dr, design_cex):
         import shutil
         simdir = os.path.join(scratch, "subsim%s%d" % (hon, ballast))
         os.makedirs(os.path.join(simdir, "b"))
-        nsim = 400 if tier == "quick" else 6000
+        nsim = 400 if tier == "quick" else 3000
         rs = vlib.tlc(scratch, "SubSettle", SCFG % dict(c, inv=""), name="SubSettleSim_%s%s%d" % (prop, hon, ballast), workers=1,
                       simulate="file=%s/b/t,num=%d" % (simdir, nsim), extra=["-depth", "16", "-seed", str(seed)], timeout=3000)
         rs["out"] = ""
@@ -122,6 +150,7 @@ def run(prop, tier, seed, scratch, t0):
         ds[0]["counts"]["graph_edges"] = r["generated"] - 1
         dr += ds
     sub_runs(prop, tier, seed, scratch, binary, tl, dr, design_cex)
+    known_replays(prop, scratch, binary, dr)
     counts = vlib.merge_counts(dr)
     allv = [v for d in dr for v in d["violations"]]
     viol = [v for v in allv if v["kind"] == "monitor"]
